@@ -251,12 +251,14 @@ def run(chk, facts_dir, tier):
     n6 = 0
     good6 = False
     seen6 = []
-    for b in prog.family(CFG + "validate"):
-        chk.analysed(b.path)
+    # validate itself, its closures, and any helper of the config module the check was moved to
+    cands6 = list(prog.family(CFG + "validate")) + [b for p_, b in sorted(prog.bodies.items()) if p_.startswith("sierradb_server::config::") and b not in prog.family(CFG + "validate")]
+    for b in cands6:
         ev6 = Ev(prog, b)
         errs = [i for i, j, s_ in b.assigns() if s_["rv"]["k"] == "agg" and str(s_["rv"].get("ak", "")).endswith("ValidationError::NodeIndexOutOfBounds")]
         if not errs:
             continue
+        chk.analysed(b.path)
         n6 += len(errs)
         for c in comparisons(prog, b, ev6):
             def role(t):
